@@ -42,6 +42,24 @@ fn nodes_of(sc: &Value) -> Vec<Node> {
         .collect()
 }
 
+/// A node name as a file name: the private-use code points U+E080..U+E0FF stand for the raw bytes 0x80..0xFF, so
+/// that scenarios can hold names that are not valid UTF-8.
+fn os_name(name: &str) -> std::ffi::OsString {
+    use std::os::unix::ffi::OsStringExt;
+    let mut bytes = vec![];
+    for c in name.chars() {
+        let u = c as u32;
+        if (0xE080..=0xE0FF).contains(&u) {
+            bytes.push((u - 0xE000) as u8);
+        }
+        else {
+            let mut buf = [0u8; 4];
+            bytes.extend_from_slice(c.encode_utf8(&mut buf).as_bytes());
+        }
+    }
+    std::ffi::OsString::from_vec(bytes)
+}
+
 fn node_path(nodes: &[Node], top: &Path, id: usize) -> PathBuf {
     let mut parts = vec![];
     let mut cur = id;
@@ -52,7 +70,7 @@ fn node_path(nodes: &[Node], top: &Path, id: usize) -> PathBuf {
     }
     let mut p = top.to_path_buf();
     for part in parts.iter().rev() {
-        p.push(part);
+        p.push(os_name(part));
     }
     p
 }
